@@ -108,16 +108,24 @@ def run(ctx):
                 ctx.ob('C08.3', f, 'limit-arg:' + s.name, okc, '`%s` of %s is %s' % (pn, s.name, 'RECENT_MESSAGES_V1_LIMIT / pass-through' if okc else 'a different value: %s' % sorted(src, key=str)[:3]), line=s.line)
     ld = P.fn('ripd::continuities::ContinuityStore::load_context_compile_input_recent_messages_v1')
     cmpn = 0
+    cut_calls = ld.calls(r'continuities::resolve_cutpoint_from_tail$')
+    cut_locals = set()
+    for i in range(len(ld.locals)):
+        if any(c.dest['l'] in reads_locals(ld, {'c': {'l': i}}) for c in cut_calls) and ld.locals[i].get('n'):
+            cut_locals.add(i)
     for bi in ld.reachable():
         for st in ld.blocks[bi]['s']:
             rv = st.get('rv')
             if rv and rv['k'] == 'bin' and rv['op'] in ('Ge', 'Gt', 'Le', 'Lt'):
                 for o, other in ((rv['a'][0], rv['a'][1]), (rv['a'][1], rv['a'][0])):
-                    l = ld.root_local(o)
-                    if l is not None and ld.lname(l) == 'message_count':
-                        k = op_const(other)
-                        ok = k is not None and str(k.get('def', '')).endswith('RECENT_MESSAGES_V1_LIMIT')
-                        cmpn += 1
-                        ctx.ob('C08.3', ld, 'completeness-test', ok, 'message_count is compared with %s' % (k.get('def') or k.get('v') if k else 'a non-constant'), line=st.get('ln'))
+                    k = op_const(other)
+                    if k is None or not str(k.get('def', '')).endswith('RECENT_MESSAGES_V1_LIMIT'):
+                        continue
+                    cmpn += 1
+                    dep = reads_locals(ld, o) & cut_locals
+                    ctx.ob('C08.3', ld, 'completeness-relative-to-cut', bool(dep),
+                           'the count compared with RECENT_MESSAGES_V1_LIMIT %s' % ('depends on the resolved cut point (%s): only messages at or before the cut make a bounded window sufficient' % sorted(ld.lname(x) for x in dep)[:3]
+                                                                                  if dep else 'does NOT depend on the resolved cut point: messages after the cut are counted, so an incomplete window is accepted and the bundle holds fewer messages than truth gives'),
+                           line=st.get('ln'))
     ctx.floor('C08.3', 'limit arguments on the compile path', uses, 4)
     ctx.floor('C08.3', 'completeness tests', cmpn, 1)
